@@ -53,12 +53,14 @@ inductive Err where
   | structError   -- struct.error: unpack of a string that is not 4 bytes / pack of a number ≥ 2^32
   | diverges      -- an iteration of `while len(block)` that consumes nothing (the real loop would spin)
   | zeroStep      -- range() arg 3 must not be zero (compression_block_size < itemsize)
+  | valueError    -- `raise ValueError(shuffle)`: an unknown shuffle keyword
   deriving Repr, DecidableEq
 
 def Err.toString : Err → String
   | .structError => "struct"
   | .diverges => "diverges"
   | .zeroStep => "zero-step"
+  | .valueError => "value-error"
 
 structure St where
   size : Nat
@@ -157,6 +159,78 @@ def output (dec : Bytes → Bytes) (frames : List Bytes) : Bytes := frames.flatM
 /-- the returned `bytesout` -/
 def bytesOut (dec : Bytes → Bytes) (frames : List Bytes) : Nat := (output dec frames).length
 
+/-! ### the same state machine in linear time
+
+`_buffer` is kept as the reversed list of the segments copied into it (`buf ++ seg` on a byte list
+costs the length of `buf` every time; a 1-byte chunking of a long payload is then quadratic).
+`Lemmas/C14.lean` proves `decompressF` equal to `decompress` (`decompressF_eq`); the driver runs
+this one. -/
+
+structure StF where
+  size : Nat
+  partialLen : Bytes
+  segs : Option (List Bytes)
+  pos : Nat
+  deriving Repr, DecidableEq
+
+def StF.init : StF := { size := 0, partialLen := [], segs := none, pos := 0 }
+
+/-- the simple state a fast state stands for -/
+def StF.abs (st : StF) : St :=
+  { size := st.size, partialLen := st.partialLen,
+    buffer := st.segs.map (fun l => l.reverse.flatten), pos := st.pos }
+
+inductive PreF where
+  | brk (st : StF)
+  | go (st : StF) (block : Bytes)
+
+/-- the prefix part never looks at the buffer: run it on the buffer-less core of the state -/
+def readPrefixF (st : StF) (block : Bytes) : Except Err PreF :=
+  match readPrefix { size := st.size, partialLen := st.partialLen, buffer := none, pos := 0 } block with
+  | .error e => .error e
+  | .ok (.brk s) => .ok (.brk { st with size := s.size, partialLen := s.partialLen })
+  | .ok (.go s b) => .ok (.go { st with size := s.size, partialLen := s.partialLen } b)
+
+def bodyF (st : StF) (block : Bytes) : StF × Bytes × List Bytes :=
+  if block.length < st.size ∨ st.segs.isSome then
+    let segs := match st.segs with | none => [] | some l => l
+    let pos := match st.segs with | none => 0 | some _ => st.pos
+    let newbytes := min (st.size - pos) block.length
+    let segs := block.take newbytes :: segs
+    let pos := pos + newbytes
+    let block := block.drop newbytes
+    if pos = st.size then
+      ({ st with size := 0, segs := none, pos := pos }, block, [segs.reverse.flatten])
+    else
+      ({ st with segs := some segs, pos := pos }, block, [])
+  else
+    ({ st with size := 0 }, block.drop st.size, [block.take st.size])
+
+def loopF : Nat → StF → Bytes → Except Err (StF × List Bytes)
+  | _, st, [] => .ok (st, [])
+  | 0, _, _ :: _ => .error .diverges
+  | fuel + 1, st, b :: bs =>
+    match readPrefixF st (b :: bs) with
+    | .error e => .error e
+    | .ok (.brk st') => .ok (st', [])
+    | .ok (.go st' block') =>
+      match loopF fuel (bodyF st' block').1 (bodyF st' block').2.1 with
+      | .error e => .error e
+      | .ok (st'', out) => .ok (st'', (bodyF st' block').2.2 ++ out)
+
+def feedF (st : StF) (chunk : Bytes) : Except Err (StF × List Bytes) :=
+  loopF chunk.length st chunk
+
+def feedAllF : StF → List Bytes → List Bytes → Except Err (List Bytes × StF)
+  | st, acc, [] => .ok (acc, st)
+  | st, acc, c :: cs =>
+    match feedF st c with
+    | .error e => .error e
+    | .ok (st', out) => feedAllF st' (acc ++ out) cs
+
+def decompressF (chunks : List Bytes) : Except Err (List Bytes × StF) :=
+  feedAllF StF.init [] chunks
+
 /-! ### compress -/
 
 /-- `range(0, n, step)` for `step > 0` -/
@@ -191,6 +265,87 @@ def compress (enc : Bytes → Bytes) (itemsize blockSize : Nat) (items : List By
   if nelem = 0 then .error .zeroStep
   else framesOf enc ((blocksOf nelem items).map List.flatten)
 
+/-! ### compress with its keyword arguments
+
+```python
+nthreads = kwargs.pop('nthreads', 1)
+compression_block_size = kwargs.pop('compression_block_size', 1 << 22)
+blosc_block_size = kwargs.pop('blosc_block_size', 512 * 1024)
+typesize = kwargs.pop('typesize', 'auto')
+clevel = kwargs.pop('clevel', 1)
+cname = kwargs.pop('cname', 'zstd')
+shuffle = kwargs.pop('shuffle', 'shuffle')        # 'shuffle' | 'bitshuffle' | None | else ValueError
+blosc.set_nthreads(nthreads); blosc.set_blocksize(blosc_block_size)
+this_typesize = data.itemsize if typesize == 'auto' else typesize
+nelem = compression_block_size // data.itemsize
+for i in range(0, len(data), nelem):
+    blosc.compress(data[i:i+nelem], typesize=this_typesize, clevel=clevel, shuffle=shuffle, cname=cname, **kwargs)
+```
+A keyword that is absent is `none`; what is left in `kwargs` after the pops (`extra`) is passed to the
+codec untouched. -/
+
+inductive ShuffleArg where
+  | shuffle | bitshuffle | noshuffle      -- 'shuffle', 'bitshuffle', None
+  | other (s : String)                    -- anything else
+  deriving Repr, DecidableEq
+
+structure Kwargs where
+  nthreads : Option Nat := none
+  compressionBlockSize : Option Nat := none
+  bloscBlockSize : Option Nat := none
+  typesize : Option Nat := none           -- `none` = absent or 'auto'
+  clevel : Option Nat := none
+  cname : Option String := none
+  shuffle : Option ShuffleArg := none
+  extra : List (String × String) := []
+  deriving Repr, DecidableEq
+
+/-- the keyword arguments of one `blosc.compress` call -/
+structure CodecArgs where
+  typesize : Nat
+  clevel : Nat
+  shuffle : Nat                           -- blosc.NOSHUFFLE = 0, SHUFFLE = 1, BITSHUFFLE = 2
+  cname : String
+  extra : List (String × String)
+  deriving Repr, DecidableEq
+
+/-- everything the codec module sees from one `list(compress(data, **kwargs))` -/
+structure CompressTrace where
+  nthreads : Nat                          -- blosc.set_nthreads(…)
+  bloscBlockSize : Nat                    -- blosc.set_blocksize(…)
+  args : CodecArgs                        -- the same for every block
+  blocks : List Bytes                     -- the raw blocks handed to blosc.compress, in order
+  pieces : List Bytes                     -- the yielded strings
+  deriving Repr, DecidableEq
+
+def shuffleConst : ShuffleArg → Except Err Nat
+  | .shuffle => .ok 1
+  | .bitshuffle => .ok 2
+  | .noshuffle => .ok 0
+  | .other _ => .error .valueError
+
+def codecArgs (kw : Kwargs) (itemsize : Nat) : Except Err CodecArgs :=
+  match shuffleConst (kw.shuffle.getD .shuffle) with
+  | .error e => .error e
+  | .ok sh => .ok { typesize := kw.typesize.getD itemsize, clevel := kw.clevel.getD 1, shuffle := sh,
+                    cname := kw.cname.getD "zstd", extra := kw.extra }
+
+/-- `list(compress(data, **kw))` with the codec a function of the call's keyword arguments -/
+def compressK (enc : CodecArgs → Bytes → Bytes) (kw : Kwargs) (itemsize : Nat) (items : List Bytes) :
+    Except Err CompressTrace :=
+  match codecArgs kw itemsize with
+  | .error e => .error e             -- raised before set_nthreads / set_blocksize / any codec call
+  | .ok ca =>
+    let blockSize := kw.compressionBlockSize.getD (2 ^ 22)
+    let nelem := blockSize / itemsize
+    if nelem = 0 then .error .zeroStep
+    else
+      let raws := (blocksOf nelem items).map List.flatten
+      match framesOf (enc ca) raws with
+      | .error e => .error e
+      | .ok pieces => .ok { nthreads := kw.nthreads.getD 1, bloscBlockSize := kw.bloscBlockSize.getD (512 * 1024),
+                            args := ca, blocks := raws, pieces := pieces }
+
 /-! ### specification vocabulary -/
 
 /-- one frame of the stream: big-endian length prefix, then the (compressed) payload -/
@@ -204,6 +359,16 @@ known yet"; a blosc frame has a 16-byte header) and short enough for a 4-byte pr
 def WF (ps : List Bytes) : Prop := ∀ p ∈ ps, p ≠ [] ∧ p.length < 2 ^ 32
 
 instance (ps : List Bytes) : Decidable (WF ps) := by unfold WF; infer_instance
+
+/-- only the length bound: payloads may be empty (a malformed stream; the state machine hands the
+codec an empty frame and goes on with the next 4 bytes) -/
+def WFlen (ps : List Bytes) : Prop := ∀ p ∈ ps, p.length < 2 ^ 32
+
+instance (ps : List Bytes) : Decidable (WFlen ps) := by unfold WFlen; infer_instance
+
+/-- equal up to a dead `_pos`: `_pos` is only meaningful while `_buffer is not None` -/
+def St.Eqv (a b : St) : Prop :=
+  a.size = b.size ∧ a.partialLen = b.partialLen ∧ a.buffer = b.buffer ∧ (a.buffer ≠ none → a.pos = b.pos)
 
 /-- the state between frames: nothing pending (`_pos` is dead while `_buffer is None`: it is
 reset to 0 before it is read again) -/
@@ -246,18 +411,20 @@ def parseSizes? (s : String) : Option (List Nat) :=
 def cutAux : Bytes → List Nat → Array Bytes → Option (List Bytes)
   | [], [], acc => some acc.toList
   | _ :: _, [], _ => none
-  | s, n :: ns, acc => if n ≤ s.length then cutAux (s.drop n) ns (acc.push (s.take n)) else none
+  | s, n :: ns, acc =>
+    let c := s.take n
+    if c.length = n then cutAux (s.drop n) ns (acc.push c) else none
 
 def showSt (st : St) : String :=
   s!"{st.size}:{bytesToHex st.partialLen}:{match st.buffer with | none => "none" | some b => bytesToHex b}:{st.pos}"
 
 /-- frames handed to the codec after each chunk (cumulative counts), tail recursive -/
-def perChunk : St → Nat → List Bytes → Array Nat → Except Err (List Nat)
+def perChunkF : StF → Nat → List Bytes → Array Nat → Except Err (List Nat)
   | _, _, [], acc => .ok acc.toList
   | st, n, c :: cs, acc =>
-    match feed st c with
+    match feedF st c with
     | .error e => .error e
-    | .ok (st', out) => perChunk st' (n + out.length) cs (acc.push (n + out.length))
+    | .ok (st', out) => perChunkF st' (n + out.length) cs (acc.push (n + out.length))
 
 /-- run-length form of a list of numbers: `v` or `vxk`, comma separated -/
 def rle (l : List Nat) : String :=
@@ -268,9 +435,38 @@ def rle (l : List Nat) : String :=
   if groups.isEmpty then "." else
   ",".intercalate (groups.reverse.map (fun (v, k) => if k = 1 then s!"{v}" else s!"{v}x{k}"))
 
+/-- the buffer as a list of items of `isz` bytes -/
+def itemsOf (isz : Nat) (d : Bytes) : List Bytes :=
+  (List.range (d.length / isz)).map (fun k => (d.drop (k * isz)).take isz)
+
+/-- one `key=value` token of an `enck` request -/
+def parseKw1? (kw : Kwargs) (t : String) : Option Kwargs :=
+  match t.splitOn "=" with
+  | [k, v] =>
+    if k = "nthreads" then (String.toNat? v).map (fun n => { kw with nthreads := some n })
+    else if k = "cbs" then (String.toNat? v).map (fun n => { kw with compressionBlockSize := some n })
+    else if k = "bbs" then (String.toNat? v).map (fun n => { kw with bloscBlockSize := some n })
+    else if k = "typesize" then
+      if v = "auto" then some { kw with typesize := none }
+      else (String.toNat? v).map (fun n => { kw with typesize := some n })
+    else if k = "clevel" then (String.toNat? v).map (fun n => { kw with clevel := some n })
+    else if k = "cname" then some { kw with cname := some v }
+    else if k = "shuffle" then
+      some { kw with shuffle := some (if v = "shuffle" then .shuffle else if v = "bitshuffle" then .bitshuffle
+                                      else if v = "none" then .noshuffle else .other v) }
+    else if k.startsWith "x:" then some { kw with extra := kw.extra ++ [((k.drop 2).toString, v)] }
+    else none
+  | _ => none
+
+def showArgs (a : CodecArgs) : String :=
+  let ex := if a.extra.isEmpty then "." else ";".intercalate (a.extra.map (fun (k, v) => s!"{k}~{v}"))
+  s!"{a.typesize}:{a.clevel}:{a.shuffle}:{a.cname}:{ex}"
+
 /-- requests
 * `dec <hexstream> <sizes>` → `ok n=<bytesout> frames=<hex,…> per=<rle of cumulative counts> st=<state> out=<hex>`
-* `enc <itemsize> <blockSize> <hexdata>` → `ok <hex,…>` (the yielded strings) -/
+  (run on the linear-time machine; `decs` runs the simple one, for small inputs)
+* `enc <itemsize> <blockSize> <hexdata>` → `ok <hex,…>` (the yielded strings)
+* `enck <itemsize> <hexdata> [key=value …]` → `ok nthreads=… bbs=… args=… blocks=… pieces=…` -/
 def handle (args : List String) : String :=
   match args with
   | ["dec", hs, sizes] =>
@@ -279,21 +475,38 @@ def handle (args : List String) : String :=
       match cutAux s ns #[] with
       | none => "bad-op"
       | some chunks =>
-        match decompress chunks, perChunk St.init 0 chunks #[] with
+        match decompressF chunks, perChunkF StF.init 0 chunks #[] with
         | .ok (frames, st), .ok per =>
-          s!"ok n={bytesOut toyDec frames} frames={bytesListToHex frames} per={rle per} st={showSt st} out={bytesToHex (output toyDec frames)}"
+          s!"ok n={bytesOut toyDec frames} frames={bytesListToHex frames} per={rle per} st={showSt st.abs} out={bytesToHex (output toyDec frames)}"
         | .error e, _ => s!"err {e.toString}"
         | _, .error e => s!"err {e.toString}"
+    | _, _ => "bad-op"
+  | ["decs", hs, sizes] =>
+    match hexToBytes? hs, parseSizes? sizes with
+    | some s, some ns =>
+      match cutAux s ns #[] with
+      | none => "bad-op"
+      | some chunks =>
+        match decompress chunks with
+        | .ok (frames, st) => s!"ok n={bytesOut toyDec frames} frames={bytesListToHex frames} st={showSt st}"
+        | .error e => s!"err {e.toString}"
     | _, _ => "bad-op"
   | ["enc", isz, bsz, hd] =>
     match isz.toNat?, bsz.toNat?, hexToBytes? hd with
     | some isz, some bsz, some d =>
       if isz = 0 ∨ d.length % isz ≠ 0 then "bad-op"
       else
-        -- the buffer as a list of items of `isz` bytes
-        let items := (List.range (d.length / isz)).map (fun k => (d.drop (k * isz)).take isz)
-        match compress toyEnc isz bsz items with
+        match compress toyEnc isz bsz (itemsOf isz d) with
         | .ok cs => s!"ok {bytesListToHex cs}"
+        | .error e => s!"err {e.toString}"
+    | _, _, _ => "bad-op"
+  | "enck" :: isz :: hd :: kws =>
+    match isz.toNat?, hexToBytes? hd, kws.foldlM parseKw1? ({} : Kwargs) with
+    | some isz, some d, some kw =>
+      if isz = 0 ∨ d.length % isz ≠ 0 then "bad-op"
+      else
+        match compressK (fun _ => toyEnc) kw isz (itemsOf isz d) with
+        | .ok t => s!"ok nthreads={t.nthreads} bbs={t.bloscBlockSize} args={showArgs t.args} blocks={bytesListToHex t.blocks} pieces={bytesListToHex t.pieces}"
         | .error e => s!"err {e.toString}"
     | _, _, _ => "bad-op"
   | _ => "bad-op"
